@@ -1,15 +1,22 @@
 #!/venv/bin/python
-"""Differential test: Lean result model (JaqalModel/Model/Result.lean, ResultOps.lean) vs the real classes in
-jaqalpaq.core.result.
+"""Differential test for property C15 (result views): Lean model (JaqalModel/Model/Result.lean, ResultOps.lean)
+vs the real classes in jaqalpaq.core.result, plus direct oracles of the property on the real code.
 
-    /venv/bin/python /verif/harness/agents/res_diff.py [--driver PATH] [--kmax 10] [--seed 0] [--n 3000]
+CLI:   /venv/bin/python /verif/harness/agents/res_diff.py [--driver PATH] [--seed 0] [--n 2000] [--thorough]
+API:   run(seed, n, driver, thorough) -> dict ; replay(case, driver) -> dict     (diff-script protocol)
 
-The driver is the line-protocol executable built by `lake build jaqal-model`
-(default /verif/lean/.lake/build/bin/jaqal-model).  Ops used: as_str, of_str, view_keys, histogram (Main.lean)
-and normalize, accept_all (ResultOps.ops; must be wired into dispatch — sections that need them are skipped
-with a message when the driver answers "unknown op").
+Driver ops used: as_str, of_str, view_keys, histogram (Main.lean) and normalize, accept_all (ResultOps.ops).
+If the driver does not know an op, the corresponding corr entry has 0 cases and
+distribution["driver_missing_op:<op>"] = 1.
 
-Exit status 0 iff no disagreement.
+Every case is a JSON object {"op": <kind>, ...}; kinds:
+  as_str       {"k", "n"}                    Readout(n).as_str with k measured qubits
+  of_str       {"s"}                         OutputParser.process_trace on the string output s -> as_int | "ValueError"
+  view_keys    {"k", "len"}                  keys of relative_frequency_by_str (and simulated_probability_by_str when len = 2^k)
+  histogram    {"k", "outs"}                 ReadoutSubcircuit.accept_readout of every outcome (all in range)
+  accept_all   {"k", "outs"}                 same, outcomes may be out of range -> "IndexError"
+  normalize    {"p": [[num, den], ...]}      ProbabilisticSubcircuit.__init__ (entries are exact doubles)
+  parse        {"k", "reps", "outputs"}      parse_jaqal_output_list on a tiny program, outputs mixed str / int
 """
 import argparse
 import itertools
@@ -20,355 +27,499 @@ import sys
 import warnings
 from fractions import Fraction
 
-import numpy
-
-from jaqalpaq.core.algorithm.walkers import Trace
-from jaqalpaq.core.result import (
-    ProbabilisticSubcircuit,
-    Readout,
-    ReadoutSubcircuit,
-    RelativeFrequencySubcircuit,
-    parse_jaqal_output_list,
-)
-from jaqalpaq.parser import parse_jaqal_string
+DEFAULT_DRIVER = "/verif/lean/.lake/build/bin/jaqal-model"
 
 
-class Driver:
-    def __init__(self, path):
-        self.p = subprocess.Popen([path], stdin=subprocess.PIPE, stdout=subprocess.PIPE, text=True, bufsize=1)
+# ----------------------------------------------------------------------------------------------- driver
 
-    def call(self, **req):
-        self.p.stdin.write(json.dumps(req) + "\n")
-        self.p.stdin.flush()
-        line = self.p.stdout.readline()
-        if not line:
-            raise RuntimeError("driver died on %r" % (req,))
-        return json.loads(line)
-
-    def out(self, **req):
-        r = self.call(**req)
-        if "out" not in r:
-            raise RuntimeError("driver error %r on %r" % (r, req))
-        return r["out"]
-
-    def has(self, op):
-        r = self.call(op=op)
-        return not ("err" in r and "unknown op" in r["err"])
-
-    def close(self):
-        self.p.stdin.close()
-        self.p.wait()
+def drive(driver, reqs):
+    """One subprocess for the whole batch. Returns the list of decoded answers (dicts with "out" or "err")."""
+    if not reqs:
+        return []
+    data = "".join(json.dumps(r) + "\n" for r in reqs)
+    r = subprocess.run([driver], input=data, text=True, capture_output=True)
+    lines = [l for l in r.stdout.split("\n") if l.strip()]
+    if len(lines) != len(reqs):
+        raise RuntimeError("driver answered %d lines for %d requests (rc=%s, stderr=%r)" % (len(lines), len(reqs), r.returncode, r.stderr[:300]))
+    return [json.loads(l) for l in lines]
 
 
-class FakeSub:
+def driver_has(driver, op):
+    (a,) = drive(driver, [{"op": op}])
+    return not ("err" in a and "unknown op" in a["err"])
+
+
+# ----------------------------------------------------------------------------------------------- real code
+
+def _imports():
+    import numpy
+    from jaqalpaq.core.algorithm.walkers import Trace
+    from jaqalpaq.core import result as R
+    from jaqalpaq.parser import parse_jaqal_string
+
+    return numpy, Trace, R, parse_jaqal_string
+
+
+class _FakeSub:
     def __init__(self, k):
         self.measured_qubits = [None] * k
         self.index = 0
 
 
-class Tally:
+class _Sink:
     def __init__(self):
-        self.count = {}
-        self.bad = []
+        self.got = []
 
-    def check(self, section, cond, detail):
-        self.count[section] = self.count.get(section, 0) + 1
-        if not cond:
-            self.bad.append((section, detail))
-            if len(self.bad) <= 20:
-                print("DISAGREE", section, detail)
+    def accept_readout(self, r):
+        self.got.append(r)
 
 
-def real_as_str(k, n):
-    r = Readout(n, 0)
-    r._subcircuit = FakeSub(k)
-    return r.as_str
+_circ_cache = {}
 
 
-def real_of_str(s):
-    # the expression in OutputParser.process_trace
-    try:
-        return int(s[::-1], 2)
-    except ValueError:
-        return None
-
-
-def to_nat(x):
-    return None if x is None else int(x)
-
-
-def test_as_str(d, t, kmax, rng, n):
-    # exhaustive in range
-    for k in range(0, kmax + 1):
-        for v in range(2 ** k):
-            t.check("as_str/in-range", d.out(op="as_str", k=k, n=v) == real_as_str(k, v), (k, v))
-    # overflow and huge
-    for _ in range(n):
-        k = rng.randrange(0, 70)
-        v = rng.randrange(0, 2 ** rng.randrange(1, 80))
-        t.check("as_str/random", d.out(op="as_str", k=k, n=str(v)) == real_as_str(k, v), (k, v))
-
-
-def test_of_str(d, t, kmax, rng, n):
-    for k in range(0, kmax + 1):
-        for bits in itertools.product("01", repeat=k):
-            s = "".join(bits)
-            t.check("of_str/bits", to_nat(d.out(op="of_str", s=s)) == real_of_str(s), s)
-            if k > 0:
-                # round trip through the real Readout
-                v = real_of_str(s)
-                t.check("of_str/roundtrip-real", real_as_str(k, v) == s, s)
-    # strings with foreign characters (those for which the model documents agreement: no '_', sign, space, 0b)
-    alphabet = "01012axZ9.,:;q"
-    for _ in range(n):
-        s = "".join(rng.choice(alphabet) for _ in range(rng.randrange(0, 12)))
-        t.check("of_str/foreign", to_nat(d.out(op="of_str", s=s)) == real_of_str(s), s)
-    for _ in range(n // 10):
-        s = "".join(rng.choice("01") for _ in range(rng.randrange(60, 200)))
-        t.check("of_str/long", to_nat(d.out(op="of_str", s=s)) == real_of_str(s), s)
-
-
-def test_views(d, t, kmax, rng):
-    for k in range(0, kmax + 1):
-        tr = Trace(used_qubits=list(range(k)))
-        sc = RelativeFrequencySubcircuit(tr, 0)
-        keys = list(sc.relative_frequency_by_str.keys())
-        t.check("view_keys/relfreq", d.out(op="view_keys", k=k, len=2 ** k) == keys, k)
-        t.check("view_keys/values", list(sc.relative_frequency_by_str.values()) == list(sc.relative_frequency_by_int), k)
-        with warnings.catch_warnings():
-            warnings.simplefilter("ignore")
-            pc = ProbabilisticSubcircuit(tr, 0, probabilities=numpy.full(2 ** k, 1.0 / 2 ** k))
-        pkeys = list(pc.simulated_probability_by_str.keys())
-        t.check("view_keys/prob", d.out(op="view_keys", k=k, len=2 ** k) == pkeys, k)
-        t.check("view_keys/prob-values", list(pc.simulated_probability_by_str.values()) == list(pc.simulated_probability_by_int), k)
-        # vector length not 2^k (caller supplied): keys follow enumerate
-        for ln in (0, 1, 3, 2 ** k + 1, 2 ** k + 5):
-            sc = RelativeFrequencySubcircuit(tr, 0, relative_frequencies=numpy.zeros(ln))
-            # a dict: duplicates collapse in Python; compare as list of produced keys
-            qubits = k
-            produced = [f"{n:b}".zfill(qubits)[::-1] for n, _ in enumerate(sc.relative_frequency_by_int)]
-            t.check("view_keys/odd-len", d.out(op="view_keys", k=k, len=ln) == produced, (k, ln))
-            t.check("view_keys/odd-len-dict", list(OrderedDictKeys(produced)) == list(sc.relative_frequency_by_str.keys()), (k, ln))
-
-
-def OrderedDictKeys(keys):
-    seen = {}
-    for x in keys:
-        seen.setdefault(x, None)
-    return seen.keys()
-
-
-def test_histogram(d, t, kmax, rng, n, have_accept):
-    for _ in range(n):
-        k = rng.randrange(0, min(kmax, 6) + 1)
-        ln = 2 ** k
-        outs = [rng.randrange(ln) for _ in range(rng.randrange(0, 60))]
-        if rng.random() < 0.2 and outs:
-            outs[rng.randrange(len(outs))] = ln + rng.randrange(0, 4)
-        sc = ReadoutSubcircuit(Trace(used_qubits=list(range(k))), 0)
-        ok = True
-        try:
-            for i, o in enumerate(outs):
-                sc.accept_readout(Readout(o, i))
-        except IndexError:
-            ok = False
-        if ok:
-            real = [int(x) for x in sc.relative_frequency_by_int]
-            t.check("histogram/in-range", [int(x) for x in d.out(op="histogram", len=ln, outs=outs)] == real, (k, outs))
-            t.check("histogram/sum", sum(real) == len(outs) == len(sc.readouts), (k, outs))
-            # readouts carry the same correspondence
-            t.check(
-                "histogram/readout-str",
-                all(r.as_str == d.out(op="as_str", k=k, n=r.as_int) for r in sc.readouts[:5]),
-                (k, outs),
-            )
-        if have_accept:
-            m = d.out(op="accept_all", len=ln, outs=outs)
-            if ok:
-                t.check("accept_all/ok", m is not None and [int(x) for x in m] == real, (k, outs))
-            else:
-                t.check("accept_all/IndexError", m is None, (k, outs))
-
-
-def test_parser(d, t, rng, n):
-    """String and integer outputs through the real OutputParser on a tiny program."""
-    for k in range(1, 7):
-        reps = 4
-        circ = parse_jaqal_string(
+def _circuit(k, reps):
+    numpy, Trace, R, parse_jaqal_string = _imports()
+    key = (k, reps)
+    if key not in _circ_cache:
+        _circ_cache[key] = parse_jaqal_string(
             f"register q[{k}]\nloop {reps} {{ prepare_all\nmeasure_all }}\nprepare_all\nmeasure_all\n", autoload_pulses=False
         )
-        for _ in range(max(1, n // 60)):
-            ints = [rng.randrange(2 ** k) for _ in range(reps + 1)]
-            strs = [d.out(op="as_str", k=k, n=v) for v in ints]
-            mixed = [s if rng.random() < 0.5 else v for s, v in zip(strs, ints)]
-            ri = parse_jaqal_output_list(circ, ints)
-            rs = parse_jaqal_output_list(circ, strs)
-            rm = parse_jaqal_output_list(circ, mixed)
-            for r in (ri, rs, rm):
-                t.check("parser/as_int", [x.as_int for x in r.readouts] == ints, (k, ints))
-                t.check("parser/as_str", [x.as_str for x in r.readouts] == strs, (k, ints))
-                t.check("parser/len", all(len(x.as_str) == k for x in r.readouts), (k, ints))
-            for a, b in zip(ri.subcircuits, rs.subcircuits):
-                t.check("parser/freq-same", list(a.relative_frequency_by_int) == list(b.relative_frequency_by_int), (k, ints))
-                t.check(
-                    "parser/freq-str-same",
-                    list(a.relative_frequency_by_str.items()) == list(b.relative_frequency_by_str.items()),
-                    (k, ints),
-                )
-            # model: of_str of each string = the int; histogram of each subcircuit
-            t.check("parser/of_str", [to_nat(d.out(op="of_str", s=s)) for s in strs] == ints, (k, ints))
-            h0 = [int(x) for x in d.out(op="histogram", len=2 ** k, outs=ints[:reps])]
-            h1 = [int(x) for x in d.out(op="histogram", len=2 ** k, outs=ints[reps:])]
-            t.check("parser/hist0", h0 == [int(x) for x in ri.subcircuits[0].relative_frequency_by_int], (k, ints))
-            t.check("parser/hist1", h1 == [int(x) for x in ri.subcircuits[1].relative_frequency_by_int], (k, ints))
-            t.check(
-                "parser/keys",
-                d.out(op="view_keys", k=k, len=2 ** k) == list(ri.subcircuits[0].relative_frequency_by_str.keys()),
-                k,
-            )
+    return _circ_cache[key]
 
 
-def real_normalize(ps):
-    """ps: list of Fractions that are exact doubles. Returns ('ok', [Fraction], warn) | ('err', kind)."""
-    arr = numpy.array([float(x) for x in ps], dtype=float)
-    assert all(Fraction(float(x)) == x for x in ps)
-    tr = Trace(used_qubits=[0])
-    with warnings.catch_warnings(record=True) as w:
-        warnings.simplefilter("always")
+def impl(case):
+    """Result of the real code on a case, as JSON-able data."""
+    numpy, Trace, R, parse_jaqal_string = _imports()
+    op = case["op"]
+    if op == "as_str":
+        r = R.Readout(int(case["n"]), 0)
+        r._subcircuit = _FakeSub(case["k"])
+        return r.as_str
+    if op == "of_str":
+        p = R.OutputParser.__new__(R.OutputParser)
+        sink = _Sink()
+        p.subcircuits, p.index, p.data, p.res, p.readout_index = [sink], 0, iter([case["s"]]), [], 0
         try:
-            sc = ProbabilisticSubcircuit(tr, 0, probabilities=arr)
-        except RuntimeError:
-            return ("err", "runtime")
+            p.process_trace()
         except ValueError:
-            return ("err", "value")
-    warn = any(issubclass(x.category, RuntimeWarning) and str(x.message).startswith("Error in probabilities") for x in w)
-    return ("ok", [float(x) for x in sc.simulated_probability_by_int], warn)
+            return "ValueError"
+        return str(sink.got[0].as_int)
+    if op == "view_keys":
+        k, ln = case["k"], case["len"]
+        tr = Trace(used_qubits=list(range(k)))
+        sc = R.RelativeFrequencySubcircuit(tr, 0, relative_frequencies=numpy.zeros(ln))
+        keys = list(sc.relative_frequency_by_str.keys())
+        if ln == 2 ** k:
+            sc0 = R.RelativeFrequencySubcircuit(tr, 0)
+            assert list(sc0.relative_frequency_by_str.keys()) == keys
+            pc = R.ProbabilisticSubcircuit(tr, 0, probabilities=numpy.full(ln, 1.0 / ln))
+            if list(pc.simulated_probability_by_str.keys()) != keys:
+                return {"relfreq": keys, "prob": list(pc.simulated_probability_by_str.keys())}
+        return keys
+    if op in ("histogram", "accept_all"):
+        k = case["k"]
+        sc = R.ReadoutSubcircuit(Trace(used_qubits=list(range(k))), 0)
+        try:
+            for i, o in enumerate(case["outs"]):
+                sc.accept_readout(R.Readout(o, i))
+        except IndexError:
+            return "IndexError"
+        return [str(int(x)) for x in sc.relative_frequency_by_int]
+    if op == "normalize":
+        ps = [Fraction(int(a), int(b)) for a, b in case["p"]]
+        arr = numpy.array([float(x) for x in ps], dtype=float)
+        with warnings.catch_warnings(record=True) as w:
+            warnings.simplefilter("always")
+            try:
+                sc = R.ProbabilisticSubcircuit(Trace(used_qubits=[0]), 0, probabilities=arr)
+            except RuntimeError:
+                return {"err": "runtime"}
+            except ValueError:
+                return {"err": "value"}
+        warn = any(issubclass(x.category, RuntimeWarning) and str(x.message).startswith("Error in probabilities") for x in w)
+        return {"ok": [float(x).hex() for x in sc.simulated_probability_by_int], "warn": warn}
+    if op == "parse":
+        k, reps = case["k"], case["reps"]
+        res = R.parse_jaqal_output_list(_circuit(k, reps), case["outputs"])
+        return {
+            "as_int": [str(x.as_int) for x in res.readouts],
+            "as_str": [x.as_str for x in res.readouts],
+            "freq": [[str(int(v)) for v in s.relative_frequency_by_int] for s in res.subcircuits],
+            "keys": [list(s.relative_frequency_by_str.keys()) for s in res.subcircuits],
+        }
+    raise ValueError(op)
 
 
-def model_normalize(d, ps):
-    r = d.out(op="normalize", p=[[str(x.numerator), str(x.denominator)] for x in ps])
-    if "err" in r:
-        return ("err", r["err"])
-    return ("ok", [Fraction(int(a), int(b)) for a, b in r["ok"]], r["warn"])
+# ----------------------------------------------------------------------------------------------- model
+
+def requests(case):
+    op = case["op"]
+    if op == "as_str":
+        return [{"op": "as_str", "k": case["k"], "n": str(case["n"])}]
+    if op == "of_str":
+        return [{"op": "of_str", "s": case["s"]}]
+    if op == "view_keys":
+        return [{"op": "view_keys", "k": case["k"], "len": case["len"]}]
+    if op == "histogram":
+        return [{"op": "histogram", "len": 2 ** case["k"], "outs": case["outs"]}]
+    if op == "accept_all":
+        return [{"op": "accept_all", "len": 2 ** case["k"], "outs": case["outs"]}]
+    if op == "normalize":
+        return [{"op": "normalize", "p": [[str(a), str(b)] for a, b in case["p"]]}]
+    if op == "parse":
+        # strings are decoded by of_str; every decoded value is re-encoded by as_str; histogram per subcircuit
+        k, reps, outs = case["k"], case["reps"], case["outputs"]
+        rq = [{"op": "of_str", "s": o} for o in outs if isinstance(o, str)]
+        return rq  # second stage computed in model()
+    raise ValueError(op)
 
 
-def dyadic(rng, lo_exp, hi_exp, bits):
-    """random dyadic m * 2^-e with at most `bits` significant bits, exactly representable."""
-    e = rng.randrange(lo_exp, hi_exp)
-    m = rng.randrange(0, 2 ** bits)
-    return Fraction(m, 2 ** e)
+def _out(a):
+    if "out" not in a:
+        raise RuntimeError("driver error: %r" % (a,))
+    return a["out"]
 
 
-def gen_probs(rng):
+def model(case, answers, driver):
+    """Model result in the same shape as impl(case). `answers` are the driver answers to requests(case)."""
+    op = case["op"]
+    if op in ("as_str", "view_keys"):
+        return _out(answers[0])
+    if op == "of_str":
+        o = _out(answers[0])
+        return "ValueError" if o is None else str(o)
+    if op == "histogram":
+        return [str(x) for x in _out(answers[0])]
+    if op == "accept_all":
+        o = _out(answers[0])
+        return "IndexError" if o is None else [str(x) for x in o]
+    if op == "normalize":
+        o = _out(answers[0])
+        if "err" in o:
+            return {"err": o["err"]}
+        # float(Fraction) is correctly rounded, and so is the IEEE division numpy performs on exact inputs
+        return {"ok": [float(Fraction(int(a), int(b))).hex() for a, b in o["ok"]], "warn": o["warn"]}
+    if op == "parse":
+        k, reps, outs = case["k"], case["reps"], case["outputs"]
+        dec = iter(_out(a) for a in answers)
+        ints = []
+        for o in outs:
+            if isinstance(o, str):
+                v = next(dec)
+                if v is None:
+                    return "ValueError"
+                ints.append(int(v))
+            else:
+                ints.append(o)
+        groups = [ints[:reps], ints[reps:]]
+        rq = [{"op": "as_str", "k": k, "n": str(v)} for v in ints]
+        rq += [{"op": "accept_all", "len": 2 ** k, "outs": g} for g in groups]
+        rq += [{"op": "view_keys", "k": k, "len": 2 ** k}]
+        ans = [_out(a) for a in drive(driver, rq)]
+        strs, hists, keys = ans[: len(ints)], ans[len(ints) : len(ints) + 2], ans[-1]
+        if any(h is None for h in hists):
+            return "IndexError"
+        return {"as_int": [str(v) for v in ints], "as_str": strs, "freq": [[str(x) for x in h] for h in hists], "keys": [keys, keys]}
+    raise ValueError(op)
+
+
+# ----------------------------------------------------------------------------------------------- oracles (real code only)
+
+def oracle(case):
+    """The property C15 evaluated directly on the real code. Returns (name, ok, detail) or None."""
+    numpy, Trace, R, parse_jaqal_string = _imports()
+    op = case["op"]
+    if op == "as_str":
+        k, n = case["k"], int(case["n"])
+        if not (k > 0 and n < 2 ** k):
+            return None  # outside the documented domain (see C15_as_str_overflow)
+        s = impl(case)
+        ok = len(s) == k and all(s[i] == str((n >> i) & 1) for i in range(k)) and int(s[::-1], 2) == n
+        return ("readout_str_int_correspondence", ok, s)
+    if op == "view_keys":
+        k, ln = case["k"], case["len"]
+        if ln != 2 ** k or k == 0:
+            return None
+        tr = Trace(used_qubits=list(range(k)))
+        rf = numpy.arange(ln, dtype=float)
+        sc = R.RelativeFrequencySubcircuit(tr, 0, relative_frequencies=rf)
+        items = list(sc.relative_frequency_by_str.items())
+        ok = (
+            len(items) == ln
+            and len({a for a, _ in items}) == ln
+            and all(len(a) == k and set(a) <= {"0", "1"} for a, _ in items)
+            and all(int(a[::-1], 2) == i and v == sc.relative_frequency_by_int[i] for i, (a, v) in enumerate(items))
+        )
+        return ("views_same_distribution_integer_order", ok, items[:4])
+    if op == "accept_all":
+        r = impl(case)
+        if r == "IndexError":
+            return None
+        outs = case["outs"]
+        ok = [int(x) for x in r] == [outs.count(i) for i in range(2 ** case["k"])] and sum(int(x) for x in r) == len(outs)
+        return ("frequencies_are_readout_counts", ok, r)
+    if op == "parse":
+        k, reps, outs = case["k"], case["reps"], case["outputs"]
+        ints = [int(o[::-1], 2) if isinstance(o, str) else o for o in outs]
+        strs = ["".join(str((v >> i) & 1) for i in range(k)) for v in ints]
+        c = _circuit(k, reps)
+        a, b, m = (R.parse_jaqal_output_list(c, x) for x in (ints, strs, outs))
+        ok = True
+        for r in (a, b, m):
+            ok = ok and [x.as_int for x in r.readouts] == ints and [x.as_str for x in r.readouts] == strs
+            ok = ok and all(len(x.as_str) == k for x in r.readouts)
+            ok = ok and [list(s.relative_frequency_by_int) for s in r.subcircuits] == [list(s.relative_frequency_by_int) for s in a.subcircuits]
+            ok = ok and all(
+                s.relative_frequency_by_int[i] == sum(1 for x in s.readouts if x.as_int == i) for s in r.subcircuits for i in range(2 ** k)
+            )
+        return ("string_and_integer_outputs_identical", ok, {"ints": ints, "strs": strs})
+    if op == "normalize":
+        r = impl(case)
+        if "err" in r:
+            return None
+        q = [float.fromhex(x) for x in r["ok"]]
+        # exact over the rationals (C15_normalize); in doubles the sum is one up to rounding (labelled: float)
+        ok = all(x >= 0 for x in q) and abs(sum(Fraction(x) for x in q) - 1) <= Fraction(len(q), 2 ** 52) and len(q) == len(case["p"])
+        return ("probabilities_nonneg_sum_one_float", ok, r)
+    return None
+
+
+# ----------------------------------------------------------------------------------------------- generators
+
+def _dyadic(rng, lo_exp, hi_exp, bits):
+    return Fraction(rng.randrange(0, 2 ** bits), 2 ** rng.randrange(lo_exp, hi_exp))
+
+
+def _gen_probs(rng):
     ln = rng.choice([1, 2, 2, 4, 4, 8, 16])
     mode = rng.randrange(8)
-    # base: exact distribution with denominators 2^20
     cuts = sorted(rng.randrange(0, 2 ** 20 + 1) for _ in range(ln - 1))
     base = [Fraction(b - a, 2 ** 20) for a, b in zip([0] + cuts, cuts + [2 ** 20])]
     if mode == 0:
-        return base
-    if mode == 1:  # small perturbation of the sum (warn zone or silent zone)
+        return mode, base
+    if mode == 1:  # perturbation of the sum: silent zone / warn zone
         i = rng.randrange(ln)
-        e = rng.choice([60, 50, 45, 44, 43, 42, 40, 30, 25, 20])
-        base[i] += rng.choice([1, -1]) * Fraction(1, 2 ** e) if base[i] > Fraction(1, 2 ** 19) else Fraction(1, 2 ** e)
-        return base
+        d = Fraction(1, 2 ** rng.choice([52, 50, 45, 44, 43, 42, 40, 30, 25, 20]))
+        base[i] += -d if (base[i] > d and rng.random() < 0.5) else d
+        return mode, base
     if mode == 2:  # around the fail cutoff 2e-6 ~ 2^-18.9
-        i = rng.randrange(ln)
-        base[i] += Fraction(rng.randrange(1, 2 ** 12), 2 ** 30)
-        return base
-    if mode == 3:  # negative entries (clip error), sum of the clipped vector exactly one
-        return base + [-dyadic(rng, 20, 60, 8) for _ in range(rng.randrange(1, 3))]
+        base[rng.randrange(ln)] += Fraction(rng.randrange(1, 2 ** 12), 2 ** 30)
+        return mode, base
+    if mode == 3:  # negative entries: clip error only
+        return mode, base + [-_dyadic(rng, 20, 60, 8) for _ in range(rng.randrange(1, 3))]
     if mode == 4:  # entries above one
-        return [1 + dyadic(rng, 20, 50, 6)] + [Fraction(0)] * (ln - 1)
+        return mode, [1 + _dyadic(rng, 20, 50, 6)] + [Fraction(0)] * (ln - 1)
     if mode == 5:  # wild
-        return [rng.choice([1, -1]) * dyadic(rng, 0, 30, 10) for _ in range(ln)]
-    if mode == 6:  # all zero / all negative: total = 0
-        return [-dyadic(rng, 0, 30, 4) for _ in range(ln)]
-    # mode 7: both kinds of error, small
+        return mode, [rng.choice([1, -1]) * _dyadic(rng, 0, 30, 10) for _ in range(ln)]
+    if mode == 6:  # total = 0
+        return mode, [-_dyadic(rng, 0, 30, 4) for _ in range(ln)]
     base[rng.randrange(ln)] += Fraction(rng.randrange(-8, 9), 2 ** rng.choice([25, 35, 45]))
-    return base + [-Fraction(1, 2 ** rng.choice([22, 30, 44, 50]))]
+    return mode, base + [-Fraction(1, 2 ** rng.choice([22, 30, 44, 50]))]
 
 
-def test_normalize(d, t, rng, n):
-    fixed = [
-        [],
-        [Fraction(1)],
-        [Fraction(0)],
-        [Fraction(0), Fraction(0)],
-        [Fraction(1, 2), Fraction(1, 2)],
-        [Fraction(1, 2), Fraction(1, 4)],
-        [Fraction(2)],
-        [Fraction(-1), Fraction(1)],
-        [Fraction(1, 2) + Fraction(1, 2 ** 44), Fraction(1, 2)],  # 5.7e-14 < warn cutoff
-        [Fraction(1, 2) + Fraction(1, 2 ** 43), Fraction(1, 2)],  # 1.1e-13 > warn cutoff
-        [Fraction(1, 2) + Fraction(1, 2 ** 19), Fraction(1, 2)],  # 1.9e-6 < fail cutoff
-        [Fraction(1, 2) + Fraction(1, 2 ** 18), Fraction(1, 2)],  # 3.8e-6 > fail cutoff
-    ]
-    cases = fixed + [gen_probs(rng) for _ in range(n)]
-    kinds = {}
-    for ps in cases:
-        # keep only cases where every intermediate of the float computation is exact (all entries multiples of 2^-60
-        # and below 2^20 would need 80 bits: check the sum instead)
-        clipped = [min(max(x, Fraction(0)), Fraction(1)) for x in ps]
-        tot = sum(clipped)
-        if ps:
-            ftot = float(numpy.array([float(c) for c in clipped]).sum())
-            exact = (
-                Fraction(ftot) == tot
-                and Fraction(abs(ftot - 1.0)) == abs(tot - 1)
-                and all(Fraction(abs(float(c) - float(x))) == abs(c - x) for c, x in zip(clipped, ps))
-            )
-            if not exact:
-                kinds["skipped-inexact-float"] = kinds.get("skipped-inexact-float", 0) + 1
-                continue
-        real = real_normalize(ps)
-        model = model_normalize(d, ps)
-        if real[0] == "ok" and model[0] == "ok":
-            # IEEE division is correctly rounded and float(Fraction) is correctly rounded: compare exactly
-            same = [float(x) for x in model[1]] == real[1] and model[2] == real[2]
-            kinds["ok-warn" if real[2] else "ok-silent"] = kinds.get("ok-warn" if real[2] else "ok-silent", 0) + 1
-            t.check("normalize/ok", same, (ps, real, model))
-            if model[0] == "ok":
-                t.check("normalize/model-sum-one", sum(model[1]) == 1 and all(x >= 0 for x in model[1]), ps)
-        else:
-            kinds[str(real)] = kinds.get(str(real), 0) + 1
-            t.check("normalize/err", real == model, (ps, real, model))
-    print("normalize case kinds:", kinds)
-    # informational: the one-ulp window between the double 2e-6 and the decimal 2e-6
-    f = Fraction(2e-6)
-    print(
-        "note: float(2e-6) - 2/10^6 = %.3g, float(1e-13) - 1/10^13 = %.3g (model cutoffs are the decimal values;"
-        " an error strictly inside that window is classified differently)" % (float(f - Fraction(2, 10 ** 6)), float(Fraction(1e-13) - Fraction(1, 10 ** 13)))
+def _float_exact(ps):
+    """All intermediates of the double computation (clip, differences, sum, total-1) are exact for this input."""
+    import numpy
+
+    if not ps:
+        return True
+    if any(Fraction(float(x)) != x for x in ps):
+        return False
+    clipped = [min(max(x, Fraction(0)), Fraction(1)) for x in ps]
+    tot = sum(clipped)
+    ftot = float(numpy.array([float(c) for c in clipped]).sum())
+    return (
+        Fraction(ftot) == tot
+        and Fraction(abs(ftot - 1.0)) == abs(tot - 1)
+        and all(Fraction(abs(float(c) - float(x))) == abs(c - x) for c, x in zip(clipped, ps))
     )
+
+
+_FIXED_PROBS = [
+    [],
+    [Fraction(1)],
+    [Fraction(0)],
+    [Fraction(0), Fraction(0)],
+    [Fraction(1, 2), Fraction(1, 2)],
+    [Fraction(1, 2), Fraction(1, 4)],
+    [Fraction(2)],
+    [Fraction(-1), Fraction(1)],
+    [Fraction(1, 2) + Fraction(1, 2 ** 44), Fraction(1, 2)],  # 5.7e-14 < warn cutoff
+    [Fraction(1, 2) + Fraction(1, 2 ** 43), Fraction(1, 2)],  # 1.1e-13 > warn cutoff
+    [Fraction(1, 2) + Fraction(1, 2 ** 19), Fraction(1, 2)],  # 1.9e-6 < fail cutoff
+    [Fraction(1, 2) + Fraction(1, 2 ** 18), Fraction(1, 2)],  # 3.8e-6 > fail cutoff
+]
+
+
+def generate(seed, n, thorough):
+    rng = random.Random(seed)
+    dist = {}
+    cases = []
+
+    def bump(key):
+        dist[key] = dist.get(key, 0) + 1
+
+    kmax = 10 if thorough else 7
+    # as_str: exhaustive in range, then random (overflow, k = 0, huge)
+    for k in range(0, kmax + 1):
+        for v in range(2 ** k):
+            cases.append({"op": "as_str", "k": k, "n": v})
+            bump("as_str:in_range")
+    for _ in range(n):
+        k = rng.randrange(0, 70)
+        v = rng.randrange(0, 2 ** rng.randrange(1, 80))
+        cases.append({"op": "as_str", "k": k, "n": v})
+        bump("as_str:in_range" if (k > 0 and v < 2 ** k) else "as_str:overflow_or_k0")
+    # of_str: exhaustive bit strings, foreign characters, long strings
+    for k in range(0, kmax + 1):
+        for bits in itertools.product("01", repeat=k):
+            cases.append({"op": "of_str", "s": "".join(bits)})
+            bump("of_str:bits")
+    alphabet = "01012axZ9.,:;q"  # no '_', sign, whitespace, 'b'/'o': Python's int() accepts those in places, the model documents it does not
+    for _ in range(n):
+        s = "".join(rng.choice(alphabet) for _ in range(rng.randrange(0, 12)))
+        cases.append({"op": "of_str", "s": s})
+        bump("of_str:valid" if s and set(s) <= {"0", "1"} else "of_str:invalid")
+    for _ in range(max(1, n // 10)):
+        cases.append({"op": "of_str", "s": "".join(rng.choice("01") for _ in range(rng.randrange(60, 200)))})
+        bump("of_str:long")
+    # view_keys
+    for k in range(0, kmax + 1):
+        for ln in sorted({2 ** k, 0, 1, 3, 2 ** k + 1, 2 ** k + 5, max(0, 2 ** k - 1)}):
+            cases.append({"op": "view_keys", "k": k, "len": ln})
+            bump("view_keys:full" if ln == 2 ** k else "view_keys:other_len")
+    # histogram / accept_all
+    for _ in range(n):
+        k = rng.randrange(0, 7)
+        ln = 2 ** k
+        outs = [rng.randrange(ln) for _ in range(rng.randrange(0, 60))]
+        cases.append({"op": "histogram", "k": k, "outs": list(outs)})
+        bump("histogram:k=%d" % k)
+        if rng.random() < 0.3 and outs:
+            outs[rng.randrange(len(outs))] = ln + rng.randrange(0, 4)
+            bump("accept_all:out_of_range")
+        else:
+            bump("accept_all:in_range")
+        cases.append({"op": "accept_all", "k": k, "outs": outs})
+    # parse: string / int / mixed outputs through the real OutputParser
+    for _ in range(max(6, n // 10)):
+        k = rng.randrange(1, 7)
+        reps = rng.randrange(1, 6)
+        ints = [rng.randrange(2 ** k) for _ in range(reps + 1)]
+        strs = ["".join(str((v >> i) & 1) for i in range(k)) for v in ints]
+        mode = rng.randrange(3)
+        outs = ints if mode == 0 else strs if mode == 1 else [s if rng.random() < 0.5 else v for s, v in zip(strs, ints)]
+        cases.append({"op": "parse", "k": k, "reps": reps, "outputs": outs})
+        bump("parse:" + ["ints", "strs", "mixed"][mode])
+    # normalize
+    probs = [(-1, p) for p in _FIXED_PROBS] + [_gen_probs(rng) for _ in range(n)]
+    for mode, ps in probs:
+        if not _float_exact(ps):
+            bump("normalize:skipped_float_inexact")
+            continue
+        cases.append({"op": "normalize", "p": [[str(x.numerator), str(x.denominator)] for x in ps]})
+        bump("normalize:mode=%d" % mode)
+    return cases, dist
+
+
+# ----------------------------------------------------------------------------------------------- protocol
+
+def _trivial(case):
+    op = case["op"]
+    if op == "as_str":
+        return case["k"] == 0 or int(case["n"]) == 0
+    if op == "of_str":
+        return len(case["s"]) == 0
+    if op == "view_keys":
+        return case["len"] == 0
+    if op in ("histogram", "accept_all"):
+        return not case["outs"]
+    if op == "normalize":
+        return len(case["p"]) <= 1
+    return False
+
+
+def run(seed: int, n: int, driver: str = DEFAULT_DRIVER, thorough: bool = False) -> dict:
+    cases, dist = generate(seed, n, thorough)
+    ops = ["as_str", "of_str", "view_keys", "histogram", "accept_all", "normalize", "parse"]
+    corr = {op: {"cases": 0, "disagreements": []} for op in ops}
+    orc = {}
+    missing = {op for op in ("normalize", "accept_all") if not driver_has(driver, op)}
+    for op in missing:
+        dist["driver_missing_op:" + op] = 1
+    for op in ops:
+        sel = [c for c in cases if c["op"] == op]
+        if op in missing or (op == "parse" and "accept_all" in missing):
+            sel_model = []
+        else:
+            sel_model = sel
+        reqs, spans = [], []
+        for c in sel_model:
+            r = requests(c)
+            spans.append((len(reqs), len(reqs) + len(r)))
+            reqs.extend(r)
+        answers = drive(driver, reqs)
+        for c, (a, b) in zip(sel_model, spans):
+            m = model(c, answers[a:b], driver)
+            i = impl(c)
+            corr[op]["cases"] += 1
+            if m != i:
+                if len(corr[op]["disagreements"]) < 20:
+                    corr[op]["disagreements"].append({"case": c, "model": m, "impl": i})
+            if op == "normalize":
+                key = "normalize:result=" + ("err_" + i["err"] if "err" in i else ("warn" if i["warn"] else "silent"))
+                dist[key] = dist.get(key, 0) + 1
+        for c in sel:
+            o = oracle(c)
+            if o is None:
+                continue
+            name, ok, detail = o
+            e = orc.setdefault(name, {"cases": 0, "failures": []})
+            e["cases"] += 1
+            if not ok and len(e["failures"]) < 20:
+                e["failures"].append({"case": c, "detail": json.dumps(detail, default=str)[:400]})
+    distinct = {json.dumps(c, sort_keys=True) for c in cases if not _trivial(c)}
+    rng = random.Random(seed)
+    samples = [cases[rng.randrange(len(cases))] for _ in range(8)]
+    return {"corr": corr, "oracle": orc, "distribution": dist, "samples": samples, "nontrivial": len(distinct)}
+
+
+def replay(case: dict, driver: str = DEFAULT_DRIVER) -> dict:
+    i = impl(case)
+    try:
+        m = model(case, drive(driver, requests(case)), driver)
+        detail = ""
+    except RuntimeError as e:
+        m, detail = None, str(e)
+    o = oracle(case)
+    return {"model": m, "impl": i, "oracle_ok": None if o is None else bool(o[1]), "detail": detail or ("" if o is None else "%s: %s" % (o[0], json.dumps(o[2], default=str)[:300]))}
 
 
 def main():
     ap = argparse.ArgumentParser()
-    ap.add_argument("--driver", default="/verif/lean/.lake/build/bin/jaqal-model")
-    ap.add_argument("--kmax", type=int, default=10)
+    ap.add_argument("--driver", default=DEFAULT_DRIVER)
     ap.add_argument("--seed", type=int, default=0)
-    ap.add_argument("--n", type=int, default=3000)
+    ap.add_argument("--n", type=int, default=2000)
+    ap.add_argument("--thorough", action="store_true")
     a = ap.parse_args()
-    rng = random.Random(a.seed)
-    d = Driver(a.driver)
-    t = Tally()
-    test_as_str(d, t, a.kmax, rng, a.n)
-    test_of_str(d, t, a.kmax, rng, a.n)
-    test_views(d, t, a.kmax, rng)
-    have_accept = d.has("accept_all")
-    if not have_accept:
-        print("SKIP accept_all: op not registered in this driver")
-    test_histogram(d, t, a.kmax, rng, a.n, have_accept)
-    test_parser(d, t, rng, a.n)
-    if d.has("normalize"):
-        test_normalize(d, t, rng, a.n)
-    else:
-        print("SKIP normalize: op not registered in this driver")
-    d.close()
-    for k in sorted(t.count):
-        print("%-28s %7d cases" % (k, t.count[k]))
-    print("TOTAL %d checks, %d disagreements" % (sum(t.count.values()), len(t.bad)))
-    sys.exit(1 if t.bad else 0)
+    res = run(a.seed, a.n, a.driver, a.thorough)
+    bad = 0
+    for op, e in res["corr"].items():
+        print("corr   %-45s %7d cases %4d disagreements" % (op, e["cases"], len(e["disagreements"])))
+        for d in e["disagreements"][:5]:
+            print("   DISAGREE", json.dumps(d)[:600])
+        bad += len(e["disagreements"])
+    for name, e in res["oracle"].items():
+        print("oracle %-45s %7d cases %4d failures" % (name, e["cases"], len(e["failures"])))
+        for d in e["failures"][:5]:
+            print("   FAIL", json.dumps(d)[:600])
+        bad += len(e["failures"])
+    print("distribution:", json.dumps(res["distribution"], sort_keys=True))
+    print("nontrivial distinct cases:", res["nontrivial"])
+    f = Fraction(2e-6) - Fraction(2, 10 ** 6)
+    print("note: double(2e-6) - 2/10^6 = %.3g: the model cutoffs are the decimal values; an error inside that one-ulp window" % float(f))
+    print("      is classified differently by the doubles of the real code (never generated here).")
+    sys.exit(1 if bad else 0)
 
 
 if __name__ == "__main__":
